@@ -56,6 +56,25 @@ def deep_copies(ctx):
     imported(ctx, C06.rule_M4, TreeFx(ctx.prog))
 
 
+def caches(ctx):
+    """Memoised recursion results equal the unmemoised computation: keys cover the arrays with multiplicity, the
+    body is order-insensitive where the key is, nothing writes through a cached value (C14.K2-K4)."""
+    from . import C14
+
+    _own(ctx)
+    for r in (C14.rule_K2, C14.rule_K3, C14.rule_K4):
+        imported(ctx, r)
+
+
+def proposal_chains(ctx):
+    """Every proposal's threshold chain covers the unit interval in every state and log_p mirrors it (C08.B/S/F)."""
+    from . import C08
+
+    _own(ctx)
+    for r in (C08.rule_B, C08.rule_S, C08.rule_F):
+        imported(ctx, r)
+
+
 def linear_use(ctx):
     """No move loses or duplicates a data point (C07.L1)."""
     from ..effects import TreeFx
